@@ -1372,7 +1372,7 @@ func (p *Parser) parseString() ast.Node {
 	// Template string with interpolation
 	tmpl, err := tmpl.Parse(strToken.Literal)
 	if err != nil {
-		p.setTokenError(strToken, err.Error())
+		p.setTokenError(strToken, "%s", err.Error())
 		return nil
 	}
 	var exprs []ast.Expression
@@ -1382,7 +1382,7 @@ func (p *Parser) parseString() ast.Node {
 		}
 		tmplAst, err := Parse(p.ctx, e.Value())
 		if err != nil {
-			p.setTokenError(strToken, err.Error())
+			p.setTokenError(strToken, "%s", err.Error())
 			return nil
 		}
 		statements := tmplAst.Statements()
